@@ -296,3 +296,90 @@ func shortType(s string) string {
 	s = strings.ReplaceAll(s, "interface {}", "any")
 	return s
 }
+
+// StructEqual is the harness's own structural equality (C08): same dynamic
+// types, leaves equal under Go ==, sequences element-wise in order, maps by
+// key.  defined=false when a NaN is involved (Go == says NaN differs from
+// itself; the statement does not fix it) or the dynamic types differ.
+func StructEqual(a, b any) (equal, defined bool) {
+	if ca, cb := Classify(a), Classify(b); strings.Contains(ca, "nan") || strings.Contains(cb, "nan") {
+		return false, false
+	}
+	return eqV(reflect.ValueOf(a), reflect.ValueOf(b))
+}
+
+func eqV(a, b reflect.Value) (bool, bool) {
+	for a.IsValid() && a.Kind() == reflect.Interface && !a.IsNil() {
+		a = a.Elem()
+	}
+	for b.IsValid() && b.Kind() == reflect.Interface && !b.IsNil() {
+		b = b.Elem()
+	}
+	an, bn := isNilV(a), isNilV(b)
+	if an || bn {
+		if an && bn {
+			if !a.IsValid() || !b.IsValid() || a.Type() == b.Type() {
+				return true, true
+			}
+			return false, false
+		}
+		return false, true
+	}
+	if a.Type() != b.Type() {
+		return false, false
+	}
+	switch a.Kind() {
+	case reflect.Bool, reflect.Int, reflect.Int8, reflect.Int16, reflect.Int32, reflect.Int64,
+		reflect.Uint, reflect.Uint8, reflect.Uint16, reflect.Uint32, reflect.Uint64, reflect.Uintptr,
+		reflect.Float32, reflect.Float64, reflect.Complex64, reflect.Complex128, reflect.String:
+		return a.Interface() == b.Interface(), true
+	case reflect.Slice, reflect.Array:
+		return eqSeq(a, b)
+	case reflect.Map:
+		if a.Len() != b.Len() {
+			return false, true
+		}
+		it := a.MapRange()
+		for it.Next() {
+			bv := b.MapIndex(it.Key())
+			if !bv.IsValid() {
+				return false, true
+			}
+			if e, ok := eqV(it.Value(), bv); !ok || !e {
+				return e, ok
+			}
+		}
+		return true, true
+	case reflect.Pointer:
+		if m := a.MethodByName("AsArray"); m.IsValid() {
+			x, y := m.Call(nil)[0], b.MethodByName("AsArray").Call(nil)[0]
+			if x.Kind() == reflect.Slice && x.Len() > 0 && x.Index(0).Kind() == reflect.Interface && a.MethodByName("GetKeys").IsValid() {
+				// an ordered catalog: associations in order
+				return eqSeq(x, y)
+			}
+			return eqSeq(x, y)
+		}
+		if m := a.MethodByName("GetKey"); m.IsValid() {
+			if e, ok := eqV(m.Call(nil)[0], b.MethodByName("GetKey").Call(nil)[0]); !ok || !e {
+				return e, ok
+			}
+			return eqV(a.MethodByName("GetValue").Call(nil)[0], b.MethodByName("GetValue").Call(nil)[0])
+		}
+		if a.NumMethod() == 0 {
+			return eqV(a.Elem(), b.Elem())
+		}
+	}
+	return false, false
+}
+
+func eqSeq(a, b reflect.Value) (bool, bool) {
+	if a.Len() != b.Len() {
+		return false, true
+	}
+	for i := 0; i < a.Len(); i++ {
+		if e, ok := eqV(a.Index(i), b.Index(i)); !ok || !e {
+			return e, ok
+		}
+	}
+	return true, true
+}
